@@ -4,6 +4,7 @@ import (
 	"encoding/json"
 	"fmt"
 	"os"
+	"strings"
 
 	"github.com/trustbloc/sidetree-go/pkg/jws"
 	"github.com/trustbloc/sidetree-go/pkg/patch"
@@ -21,6 +22,7 @@ type keyUse struct {
 	Idx   int
 	Nonce string
 	Set   bool
+	Alg   uint // hash algorithm of the commitment made to this key (0: the operation's own algorithm)
 }
 
 type didTruth struct {
@@ -86,10 +88,16 @@ func (w *World) nonceFor(step int, role string, want bool) string {
 func (w *World) resolvePatches(v any) any {
 	switch x := v.(type) {
 	case map[string]any:
-		if k, ok := x["$key"]; ok && len(x) == 1 {
+		if k, ok := x["$key"]; ok {
 			idx := toInt(k)
 			key := w.Pool.Get(idx % len(w.Pool.Keys))
-			return docJWK(key)
+			jwk := docJWK(key)
+			for name, extra := range x { // further members of the JWK object (any JSON type) ride along
+				if name != "$key" {
+					jwk[name] = extra
+				}
+			}
+			return jwk
 		}
 		out := make(map[string]any, len(x))
 		for k, e := range x {
@@ -350,9 +358,38 @@ func (wl *Wallet) build(stepIdx int, st *Step) *BuiltOp {
 	if kind != ref.Deactivate {
 		tr.UpdCommit = ref.Commitment(alg, w.refJWK(nextUpd))
 	}
+	// the reveal value opens an existing commitment, so it uses the algorithm that commitment was made with, which
+	// need not be the algorithm of this operation's own next commitments (algorithm migration inside a chain)
+	revealAlg := alg
+	if sign.Alg != 0 {
+		revealAlg = sign.Alg
+	}
 	if kind != ref.Create {
-		op.RevealValue = ref.Reveal(alg, w.refJWK(sign))
-		op.RevealCommit = ref.Commitment(alg, w.refJWK(sign))
+		op.RevealValue = ref.Reveal(revealAlg, w.refJWK(sign))
+		op.RevealCommit = ref.Commitment(revealAlg, w.refJWK(sign))
+	}
+	nextUpd.Alg, nextRec.Alg = alg, alg
+	op.NextUpd, op.NextRec = nextUpd, nextRec
+
+	// ---- a delta padded to the configured size limit (boundary of "valid"): exactly at, one below, one above
+	if st.PadDelta > 0 && kind != ref.Deactivate && st.Fault == ref.FNone && !clientBuilt && !st.Opaque && w.Plan.Swarm.enabled("add-also-known-as") {
+		specials := []string{"", "\u2028", "\u2029\u2028", "<>&", "\u00e9\u00a0", "\U0001F600"}[((st.PadKind%6)+6)%6]
+		mk := func(n int) []any {
+			uri := "did:pad:" + specials + strings.Repeat("x", n)
+			return append(append([]any{}, patches...), map[string]any{"action": "add-also-known-as", "uris": []any{uri}})
+		}
+		size := func(ps []any) int {
+			return len(ref.JCS(map[string]any{"updateCommitment": tr.UpdCommit, "patches": ps}))
+		}
+		target := int(w.Plan.Swarm.MaxDeltaSize) + map[int]int{1: 0, 2: -1, 3: 1}[st.PadDelta]
+		if need := target - size(mk(0)); need >= 0 {
+			patches = mk(need)
+			tr.Patches = patches
+			w.T.Probe(fmt.Sprintf("delta_padded_to_limit%+d", target-int(w.Plan.Swarm.MaxDeltaSize)))
+			if st.PadDelta == 3 {
+				tr.Fault = ref.FDeltaInvalid // one byte over the limit: the delta is invalid by size alone
+			}
+		}
 	}
 
 	// ---- honest request as generic JSON (the raw builder's output, also the base for fault injection)
@@ -419,11 +456,11 @@ func (wl *Wallet) build(stepIdx int, st *Step) *BuiltOp {
 	} else {
 		tr.Suffix = suffix
 	}
-	op.Honest = st.Fault == ref.FNone
+	op.Honest = tr.Fault == ref.FNone
 
 	// ---- the wallet's own bookkeeping (its view of which keys are committed); a look-alike signed with an
 	// explicitly chosen key is somebody else's operation and changes nothing here
-	effect := faultEffect(kind, st.Fault)
+	effect := faultEffect(kind, tr.Fault)
 	if st.SignKey > 0 {
 		effect = "none"
 	}
